@@ -1,8 +1,6 @@
 // ---- shims / specification for U-ANF (C09: A-normalisation names sub-expressions left to right, each once) ----
 #[verifier::external_body] pub struct Ty { _p: u64 }
 #[verifier::external_body] pub struct Prim { _p: u64 }
-#[verifier::external_body] pub struct UnaryOp { _p: u64 }
-#[verifier::external_body] pub struct BinaryOp { _p: u64 }
 #[verifier::external_body] pub struct TastIdent { _p: u64 }
 #[verifier::external_body] pub struct StructConstructor { _p: u64 }
 #[verifier::external_body] pub struct EnumConstructor { _p: u64 }
